@@ -12,7 +12,15 @@ BATCHES = [
     ["CC(=O)OCC>>CCO", "CCBr.[OH-]>>CCO", "CC(=O)OC>>CC(=O)O", "CCO>>CCO", "COC(=O)c1ccccc1.N>>NC(=O)c1ccccc1"],
     ["CCO>>CCO", "CCC(=O)OC>>CO", "CC>>CCC", "CC(=O)Nc1ccccc1>>Nc1ccccc1", "CC(=O)Cl.N>>CC(N)=O", "BrBr>>Cl",
      "CCOC(=O)CC>>CCC(=O)O"],
+    # the same reaction more than once in a batch
+    ["CC(=O)OCC>>CCO", "CCO>>CCO", "CC(=O)OCC>>CCO", "CC(=O)OC>>CC(=O)O", "CC(=O)OCC>>CCO", "CC(=O)OC>>CC(=O)O"],
 ]
+# what a failing job can raise: the plain injected error, exceptions whose text is empty, multi-line and
+# non-ASCII texts, exception types with special str() (KeyError quotes its argument)
+EXC = ["exception", "exception:MemoryError", "exception:ValueError:", "exception:KeyError:C", "exception:AssertionError",
+       "exception:RuntimeError:Pre-condition Violation\\n\\tgetNumImplicitHs() called without preceding call\\n",
+       "exception:IndexError", "exception:ZeroDivisionError:division by zero", "exception:RuntimeError:\\nleading break",
+       "exception:ValueError:d\u00e9faut {0} %s", "exception:KeyError", "exception:RecursionError:maximum recursion depth exceeded"]
 
 
 def _row(e):
@@ -43,14 +51,19 @@ def fault_plans(mcs, rng, tier, n_jobs):
     plans = []
     sjobs = [(r, c) for r in rows for c in CONDS]
     gjobs = [r for r in rows if mcs[r]]
-    # every single fault
+    # every single fault; the exception kinds rotate over the jobs (quick) or are all tried on every job
+    nx = 0
     for r, c in sjobs:
         plans.append(({"search_wait:%d:%s" % (r, c): "timeout"}, {r}))
-        plans.append(({"search_thread:%d:%s" % (r, c): "exception"}, {r}))
+        for _ in range(2 if tier == "quick" else len(EXC)):
+            plans.append(({"search_thread:%d:%s" % (r, c): EXC[nx % len(EXC)]}, {r}))
+            nx += 1
     for r in gjobs:
         aff = {q for q in gjobs if mcs[q] == mcs[r]}
         plans.append(({"graph:%s" % mcs[r]: "timeout"}, aff))
-        plans.append(({"graph:%s" % mcs[r]: "exception"}, aff))
+        for _ in range(3 if tier == "quick" else len(EXC)):
+            plans.append(({"graph:%s" % mcs[r]: EXC[nx % len(EXC)]}, aff))
+            nx += 1
     # every subset of the conditions of one reaction
     for r in rows[: 2 if tier == "quick" else len(rows)]:
         for k in range(2, len(CONDS) + 1):
@@ -66,11 +79,11 @@ def fault_plans(mcs, rng, tier, n_jobs):
                 plan["search_wait:%d:%s" % (r, c)] = "timeout"
                 aff.add(r)
             elif x < 0.35:
-                plan["search_thread:%d:%s" % (r, c)] = "exception"
+                plan["search_thread:%d:%s" % (r, c)] = rng.choice(EXC)
                 aff.add(r)
         for r in gjobs:
             if rng.random() < 0.25:
-                plan["graph:%s" % mcs[r]] = rng.choice(["timeout", "exception"])
+                plan["graph:%s" % mcs[r]] = rng.choice(["timeout"] + EXC)
                 aff |= {q for q in gjobs if mcs[q] == mcs[r]}
         if plan:
             plans.append((plan, aff))
@@ -114,7 +127,7 @@ def run(tier):
     nid = 0
     jobs = []
     meta = []
-    combos = [(0, 1), (1, 4)] if tier == "quick" else [(0, 1), (1, 1), (0, 4), (1, 16)]
+    combos = [(0, 1), (1, 4), (2, 1)] if tier == "quick" else [(0, 1), (1, 1), (0, 4), (1, 16), (2, 1), (2, 4)]
     # phase 1: fault-free reference per (batch, worker count) to learn which rows reach the MCS stage
     refs = {}
     for bi, nj in combos:
